@@ -6,7 +6,9 @@ All theorems are about `Model/Rewrite.lean` (`regenerate`, `step`, `iterate`) an
 package (any files, any declarations with any source text), every schema and every history of
 regenerations, in both layouts. The facts taken from the source on every run
 (`Gen/RewriteOffsets.lean`: the slice offsets of `GetMethodBody`, the skip conditions / separator / trim of
-`RemainingSource`, the shape of the template's WARNING block, the alias rule of `Import.String`) enter the
+`RemainingSource`, the shape of the template's WARNING block, the alias rule of `Import.String`, and WHICH
+name helper resolver.go applies to a type name to look a previous method / struct / accessor up versus which one
+resolver.gotpl applies to write them, per layout) enter the
 proofs by unfolding, so an edit of those lines changes the statement being proved.
 
 Go's parser / printer / type checker are not modelled: declarations come with the source text go/parser
@@ -21,6 +23,10 @@ Partial statements and why:
   Directive lines are dropped inside go/ast's `Text()` itself, outside the model (F19d, replayed by the harness).
 * `copied_is_regenerated` says what is marked copied; for the accessor and the struct type only the
   template text is written, user changes to them are lost: `boilerplate_overwritten_witness` (F19f).
+* `accessor_lookup_is_emitted_accessor_partial`: the accessor `func (r *Resolver) X()` is looked up under
+  `cases.Title(o.Name)` and written as `ucFirst o.Name`; these differ for a type name with a leading underscore
+  (`accessor_title_witness`): the old accessor is then not marked copied and lands in the WARNING block while
+  the template writes a fresh one — boilerplate, nothing of the user's is lost (`nothing_lost` covers it).
 * `valid_go_output` is full strength since `fix:` 960850a; `valid_go_output_block_partial` +
   `block_comment_witness` are the statement and the counterexample for the template as it was.
 -/
@@ -51,13 +57,72 @@ def cfgF : Cfg := { layout := .follow }
 def cfgS : Cfg := { layout := .single }
 def keptTodos : Kept := ⟨"panic(str.ToUpper(\"x {\"))".toList, "res", "err", "Todos lists.".toList⟩
 
+-- ------------------------------------------------------------------ 0. the names looked up are the names written
+
+/-- a type whose name the "make it private" helpers treat differently: `LcFirst` gives `uRLInfo`, `ToGoPrivate` `urlInfo` -/
+def oURL : Obj := { name := "URLInfo", file := "a.resolvers.go", fields := [⟨"Hits", "hits", "a.resolvers.go", true⟩] }
+def fHits : Field := ⟨"Hits", "hits", "a.resolvers.go", true⟩
+def cfgURL : Cfg :=
+  { layout := .follow
+    names := fun s => if s == "URLInfo" then ⟨"urlInfo", "URLInfo", "URLInfo"⟩ else ⟨lcFirst s, ucFirst s, ucFirst s⟩ }
+def dHits : Decl :=
+  { isFunc := true, tok := "", recv := "uRLInfoResolver", name := "Hits", doc := [], specDoc := [], namedV := "n", namedE := "err",
+    hdr := "func (r *uRLInfoResolver) Hits(ctx context.Context, obj *URLInfo) (n int, err error) ".toList,
+    inner := "\n\tn = len(obj.URL)\n\treturn\n".toList, hasBody := true, canon := "n = len(obj.URL)\n\treturn".toList }
+def pURL : Pkg := [{ name := "a.resolvers.go", imports := [⟨"", "context", "context"⟩], decls := [dHits] }]
+
+/-- **lookup_name_is_emitted_name.** In both layouts, for every GraphQL type name and whatever `ToGo`,
+`ToGoPrivate` and `cases.Title` return for it (`cfg.names` is any function): the receiver type under which
+resolver.go searches for a field's previous method (`GetMethodComment`, `GetMethodBody`, `GetPrevDecl`) is the
+receiver type resolver.gotpl writes the method with. Proved over the regenerated facts `lookupRecvSingle`,
+`lookupRecvFollow`, `emitRecv`: it closes only while the same helper is applied on both sides, and
+`body_verbatim`, `named_results_and_doc_kept`, `body_doc_results_kept_forever`, `idempotent_methods`,
+`spec_methods_hold_on_model` all rest on it. -/
+theorem lookup_name_is_emitted_name (cfg : Cfg) (o : Obj) : lookupName cfg o = structName cfg o := lookupName_eq cfg o
+
+/-- … so the search finds exactly the method a previous run wrote (its receiver is `structName`). -/
+theorem lookup_finds_emitted_method (cfg : Cfg) (p : Pkg) (o : Obj) (f : Field) :
+    mkMethod cfg p o f = mkMethodAt cfg p o f (structName cfg o) := by
+  unfold mkMethod; rw [lookupName_eq]
+
+/-- What is at stake: were the method of `URLInfo.hits` searched under `ToGoPrivate(o.Name)+"Resolver"`
+(`urlInfoResolver`) while the template writes `uRLInfoResolver`, the user's body would be replaced by the
+panic stub and their method would not be marked copied; searched under the emitted name it is kept. -/
+theorem lookup_under_other_name_loses_body_witness :
+    mangle cfgURL .toGoPrivate "URLInfo" ++ "Resolver" ≠ structName cfgURL oURL ∧
+    (mkMethodAt cfgURL pURL oURL fHits (mangle cfgURL .toGoPrivate "URLInfo" ++ "Resolver")).impl = defaultImpl fHits ∧
+    (mkMethodAt cfgURL pURL oURL fHits (mangle cfgURL .toGoPrivate "URLInfo" ++ "Resolver")).namedV = "" ∧
+    (mkMethod cfgURL pURL oURL fHits).impl = trim dHits.inner ∧ (mkMethod cfgURL pURL oURL fHits).namedV = "n" := by decide
+
+/-- **marked_struct_is_emitted_struct.** The struct type `MarkStructCopied` is called with is the struct type
+the template writes, and the template's three spellings of it (method receiver, struct type, accessor result)
+agree — for every type name, both layouts. -/
+theorem marked_struct_is_emitted_struct (cfg : Cfg) (o : Obj) :
+    markName cfg o = structTypeName cfg o.name ∧ structName cfg o = structTypeName cfg o.name ∧
+    accessorRetName cfg o.name = structTypeName cfg o.name := ⟨markName_eq cfg o, rfl, rfl⟩
+
+/-- **accessor_lookup_is_emitted_accessor_partial.** The accessor marked copied (`cases.Title(o.Name)`) is the
+accessor the template writes (`ucFirst o.Name`) whenever `cases.Title` only upper-cases the first character of
+the type name. Full statement (no hypothesis) is false: `accessor_title_witness`. -/
+theorem accessor_lookup_is_emitted_accessor_partial (cfg : Cfg) (o : Obj) (h : (cfg.names o.name).title = ucFirst o.name) :
+    accessorLookup cfg o = accessorName cfg o.name := by
+  unfold accessorLookup accessorName byLayout; cases cfg.layout <;> exact h
+
+example : (cfgURL.names oURL.name).title = ucFirst oURL.name := by decide
+
+/-- `cases.Title("_meta") = "_Meta"`, the template writes `_meta`: the accessor of such a type is never marked copied. -/
+theorem accessor_title_witness :
+    let cfg : Cfg := { layout := .follow, names := fun _ => ⟨"meta", "Meta", "_Meta"⟩ }
+    accessorLookup cfg { name := "_meta", file := "a.resolvers.go", fields := [] } = "_Meta" ∧ accessorName cfg "_meta" = "_meta" := by decide
+
 -- ------------------------------------------------------------------ 1. bodies
 
 /-- `GetMethodBody` returns exactly the text between the braces (offsets regenerated from the source). -/
 theorem getMethodBody_is_inner (d : Decl) : getMethodBody d = d.inner := getMethodBody_inner d
 
 /-- **body_verbatim.** If the field still exists (`f` is a resolver field of an object of the new schema) and the
-package declares its method (`d` is what `GetPrevDecl` finds) with a non-empty body, the regenerated file the
+package declares its method — on the receiver type the template writes, `structName`, for any type name — with a
+non-empty body (`d` is the first such declaration), the regenerated file the
 layout assigns to the field contains the method with exactly the old body up to `strings.TrimSpace`; read
 back from the written file, the body trims to the same text. -/
 theorem body_verbatim (cfg : Cfg) (p : Pkg) (sch : Schema) (o : Obj) (f : Field) (k : Key) (d : Decl)
@@ -92,6 +157,8 @@ theorem named_results_and_doc_kept (cfg : Cfg) (p : Pkg) (sch : Schema) (o : Obj
   exact ⟨nf, hnf, _, hmem, h1, h2, h4, h5, h6⟩
 
 example : trim (trimBackslashes dTodos.doc) ≠ [] := by decide
+example : oURL ∈ [oURL] ∧ fHits ∈ oURL.resolverFields ∧
+    firstMatch pURL (structName cfgURL oURL) fHits.goName = some ((0, 0), dHits) ∧ trim dHits.inner ≠ [] := by decide
 
 /-- **doc_kept.** … and when the doc text does not start with a backslash, that is the doc text itself. -/
 theorem doc_kept (cfg : Cfg) (p : Pkg) (sch : Schema) (o : Obj) (f : Field) (k : Key) (d : Decl)
